@@ -50,7 +50,7 @@ ReadOnlyOps == {"Clone", "CloneSeqBag", "Unalign", "Sample", "SampleSeqBag", "Su
                 "InverseCoordinates", "InversePositions", "RefCoordinates", "RefSites", "Split", "Transpose",
                 "MaxCharStats", "Consensus", "CharStats", "CharStatsSite", "CharStatsSeq", "UniqueCharacters",
                 "Entropy", "NbVariableSites", "InformativeSites", "AvgAllelesPerSite", "Pssm", "CountDifferences",
-                "NumGapsUnique", "NumMutationsUnique", "NumMutRef", "ListMutRef", "CountProfile", "SiteConservation", "AlphabetInfo",
+                "NumGapsUnique", "NumMutationsUnique", "NumMutRef", "ListMutRef", "CountProfile", "ProfileOnly", "SiteConservation", "AlphabetInfo",
                 "BuildBootstrap", "RandSubAlign", "Rarefy", "DetectAlphabet", "Identical", "Query", "New", "CodonAlign"}
 
 Ret(r) == Res(FALSE, r.o, <<>>, r.ret, TRUE)
@@ -142,6 +142,8 @@ Step(h, op, recv, a) ==
          IF NumMutErr(o.al, o.rows[a.i + 1].s, o.rows[a.refi + 1].s) THEN Fail(o)
          ELSE Q(o, [muts |-> ListMut(o.al, o.rows[a.i + 1].s, o.rows[a.refi + 1].s)])
     [] op = "CountProfile" -> Q(o, [prof |-> ProfileCounts(o)])
+    [] op = "ProfileOnly" -> Q(o, [raw |-> [i \in 1..Width(o) |-> Occ(Col(o, i), a.c)],
+                                   fold |-> [i \in 1..Width(o) |-> Occ(ColUp(o, i), Up(a.c))]])
     [] op = "SiteConservation" -> IF SiteConservationErr(o, a.site) THEN Fail(o) ELSE Q(o, [v |-> SiteConservation(o, a.site)])
     [] op = "AlphabetInfo" -> Q(o, [chars |-> AlphaChars(o), idx |-> [k \in 1..Len(a.chars) |-> AlphabetIndex(o, a.chars[k])]])
     [] op = "Identical" -> Q(o, [v |-> /\ Len(o.rows) = Len(h[a.other].rows)
@@ -183,6 +185,17 @@ RetOK(op, a, exp, obs) ==
                             /\ Len(obs.muts) = Cardinality(exp.muts)
     \* one row per distinct character, all rows as long as the alignment, and case-folding the rows gives the folded counts
     \* (that the rows themselves are case-folded is the separate conjunct "folded")
+    \* the counts of one character per site: those of the bytes, or the case-folded ones (see "folded"); through the
+    \* command line a table "site <TAB> c" / "i <TAB> count": exactly two cells per line
+    [] op = "ProfileOnly" ->
+         LET n == IF "table" \in DOMAIN obs
+                  THEN IF /\ Len(obs.table) = Len(exp.raw) + 1
+                          /\ \A k \in 1..Len(obs.table) : Len(obs.table[k]) = 2
+                          /\ obs.table[1] = <<<<115, 105, 116, 101>>, <<a.c>>>>
+                          /\ \A k \in 2..Len(obs.table) : obs.table[k][1] = DecOf(k - 2) /\ IsDec(obs.table[k][2])
+                       THEN [k \in 1..Len(exp.raw) |-> DecVal(obs.table[k + 1][2])] ELSE <<-1>>
+                  ELSE obs.n
+         IN n = exp.raw \/ n = exp.fold
     [] op = "CountProfile" -> /\ Cardinality({obs.prof[k].c : k \in 1..Len(obs.prof)}) = Len(obs.prof)
                               /\ \A k \in 1..Len(obs.prof) : Len(obs.prof[k].n) = Len(obs.prof[1].n)
                               /\ FoldObservedProfile(obs.prof) = exp.prof
@@ -197,7 +210,7 @@ CliObj(x, o) == [x EXCEPT !.pol = 0, !.al = o.al,
                           !.len = IF x.k = "align" THEN (IF Len(x.rows) = 0 THEN -1 ELSE Len(x.rows[1].s)) ELSE x.len]
 \* commands that print numbers (tables of counts, majority characters, ...): nothing is read back, the printed values
 \* are the return record of the query
-CliQueryOps == {"CharStats", "CharStatsSeq", "CountProfile", "MaxCharStats", "AvgAllelesPerSite"}
+CliQueryOps == {"CharStats", "CharStatsSeq", "CountProfile", "ProfileOnly", "MaxCharStats", "AvgAllelesPerSite"}
 CliOf(op, o, R) ==
   IF R.err THEN Fail(o)
   ELSE IF op \in CliQueryOps THEN Res(FALSE, o, <<>>, R.ret, R.j)
